@@ -1296,11 +1296,11 @@ impl<'a> Adv<'a> {
     }
 }
 
-fn c02_circuits() -> Vec<(&'static str, CircuitData<F, PC, D>, PartialWitness<F>)> {
+fn c02_circuits(cfg: &CircuitConfig) -> Vec<(&'static str, CircuitData<F, PC, D>, PartialWitness<F>)> {
     use std::sync::Arc;
     let mut out = Vec::new();
     {   // arithmetic with public inputs, constants, a range check, a boolean, an equality and a zero assertion
-        let mut b = CircuitBuilder::<F, D>::new(CircuitConfig::standard_recursion_config());
+        let mut b = CircuitBuilder::<F, D>::new(cfg.clone());
         let x = b.add_virtual_target(); let y = b.add_virtual_target(); let bit = b.add_virtual_bool_target_safe();
         b.register_public_input(x);
         let xy = b.mul(x, y); let s = b.add(xy, x); let c = b.constant(F::from_canonical_u64(21)); b.connect(s, c);
@@ -1313,7 +1313,7 @@ fn c02_circuits() -> Vec<(&'static str, CircuitData<F, PC, D>, PartialWitness<F>
         out.push(("arithmetic/assertions", b.build::<PC>(), pw));
     }
     {   // hashing and exponentiation
-        let mut b = CircuitBuilder::<F, D>::new(CircuitConfig::standard_recursion_config());
+        let mut b = CircuitBuilder::<F, D>::new(cfg.clone());
         let ins = b.add_virtual_targets(5);
         let h = b.hash_n_to_hash_no_pad::<PoseidonHash>(ins.clone());
         b.register_public_inputs(&h.elements);
@@ -1324,7 +1324,7 @@ fn c02_circuits() -> Vec<(&'static str, CircuitData<F, PC, D>, PartialWitness<F>
         out.push(("poseidon/exponentiation", b.build::<PC>(), pw));
     }
     {   // two lookup tables and a random access
-        let mut b = CircuitBuilder::<F, D>::new(CircuitConfig::standard_recursion_config());
+        let mut b = CircuitBuilder::<F, D>::new(cfg.clone());
         let t0: Vec<(u16, u16)> = (0..16u16).map(|i| (i, 2 * i + 1)).collect();
         let t1: Vec<(u16, u16)> = (0..20u16).map(|i| (i, 3 * i + 100)).collect();
         let i0 = b.add_lookup_table_from_pairs(Arc::new(t0)); let i1 = b.add_lookup_table_from_pairs(Arc::new(t1));
@@ -1347,7 +1347,13 @@ fn c02_witness_corruption() {
     let mut bad = Vec::new();
     let mut cases = 0usize;
     let mut skipped = 0usize;
-    for (tag, data, pw) in c02_circuits() {
+    // the standard configuration and one whose number of routed wires (37) is not a multiple of the quotient degree factor (8): the last chunk of
+    // the permutation product is then a partial one
+    let mut narrow = CircuitConfig::standard_recursion_config(); narrow.num_routed_wires = 37;
+    let mut all = Vec::new();
+    for (ctag, cfg) in [("std", CircuitConfig::standard_recursion_config()), ("37 routed wires", narrow)] { for (t, d, w) in c02_circuits(&cfg) { all.push((format!("{t} [{ctag}]"), d, w)); } }
+    for (tag, data, pw) in all {
+        let tag = tag.as_str();
         let Some(base) = Adv::new(&data, pw) else { bad.push(format!("{tag}: honest witness generation failed")); continue; };
         cases += 1;
         // the oracle reads the constants / selector layout of the built circuit; if it cannot even confirm the honest assignment (e.g. after an
@@ -1359,7 +1365,7 @@ fn c02_witness_corruption() {
         let nw = data.common.config.num_wires;
         let nr = data.common.config.num_routed_wires;
         // cells: every row; a spread of routed and advice columns
-        let cols: Vec<usize> = vec![0, 1, 2, 3, 5, 7, 12, 30, 63, nr - 1, nr, nr + 1, nw - 1];
+        let cols: Vec<usize> = vec![0, 1, 2, 3, 5, 7, 12, 30, 32, 36, 63, nr - 1, nr, nr + 1, nw - 1];
         let mut budget = 0usize;
         for r in 0..n {
             for &c in &cols {
@@ -1922,6 +1928,36 @@ fn c17_all_gates_and_configs() {
         }
     }
     finish("c17_all_gates_and_configs", cases, bad);
+}
+
+// C02: an assignment that gives two different values to one copy class is refused (never silently repaired into an accepted proof of something else)
+#[test]
+fn c02_conflicting_assignments() {
+    let mut bad = Vec::new();
+    let mut cases = 0usize;
+    for order in 0..4usize {
+        let mut b = CircuitBuilder::<F, D>::new(CircuitConfig::standard_recursion_config());
+        let x = b.add_virtual_target(); let y = b.add_virtual_target();
+        b.register_public_input(x); b.register_public_input(y);
+        let sq = b.mul(x, x);
+        match order { 0 => b.connect(y, sq), 1 => b.connect(sq, y), 2 => { let z = b.add_virtual_target(); b.connect(z, sq); b.connect(y, z); } _ => { let d = b.sub(y, sq); b.assert_zero(d); } }
+        let data = b.build::<PC>();
+        for (xv, yv, consistent) in [(3u64, 9u64, true), (3, 10, false), (0, 1, false), (5, 24, false)] {
+            let mut pw = PartialWitness::new();
+            pw.set_target(x, F::from_canonical_u64(xv)).unwrap(); pw.set_target(y, F::from_canonical_u64(yv)).unwrap();
+            cases += 1;
+            let r = catch_unwind(AssertUnwindSafe(|| data.prove(pw)));
+            match r {
+                Ok(Ok(p)) => {
+                    let acc = data.verify(p.clone()).is_ok();
+                    if consistent { if !acc { bad.push(format!("connect order {order}: consistent assignment ({xv}, {yv}) not accepted")); } }
+                    else if acc { bad.push(format!("connect order {order}: conflicting assignment x = {xv}, y = {yv} was not refused: an accepted proof with public inputs {:?} came back", p.public_inputs.iter().map(|v| v.to_canonical_u64()).collect::<Vec<_>>())); }
+                }
+                _ => { if consistent { bad.push(format!("connect order {order}: consistent assignment ({xv}, {yv}) not provable")); } }
+            }
+        }
+    }
+    finish("c02_conflicting_assignments", cases, bad);
 }
 
 // C13: the hash functions built on the permutations (native and in-circuit) against a textbook overwrite-mode sponge over the NAIVE permutation
